@@ -273,7 +273,7 @@ def cases():
         if m.nboxes() == [3]:
             for lay in families.all_layouts(3, 3):
                 out.append({'label': '%s/layout%s' % (m.name, lay), 'mesh': m, 'fields': fsets[2], 'layout': [lay], 'geom': 1})
-    for r in range(6 if tier == 'quick' else 40):
+    for r in range(6 if tier == 'quick' else 200):
         nd = rnd.choice([2, 3])
         m = families.random_mesh(rnd, nd, max_levels=2, max_boxes=4)
         m.name = 'rand%d-%dd' % (r, nd)
